@@ -77,6 +77,15 @@ def seg_obs_direct(bk, sg):
         sflag = "returned-points-not-at-returned-parameters"
     elif not sflag:
         Dev.state = max(Dev.state, dv)
+    if not sflag:
+        # closest-point parameters are invariant under a uniform scaling of the plane; powers of two keep the data exact.
+        # (section coordinates of real manifolds are O(1e-4): the routine must not depend on the length scale)
+        for e in (10, 14):
+            sc = 2.0 ** -e
+            s2, t2, px2, py2, qx2, qy2 = bk._closest_points_on_segments_2d(*[float(v) * sc for v in sg])
+            if max(abs(s2 - s), abs(t2 - t)) > TOL or max(abs(px2 - px * sc), abs(py2 - py * sc), abs(qx2 - qx * sc), abs(qy2 - qy * sc)) > TOL * sc:
+                sflag = "closest-points-depend-on-length-scale"
+                break
     return ("seg", "_closest_points_on_segments_2d", tuple(sg), (fs.numerator, fs.denominator),
             (ft.numerator, ft.denominator), sflag)
 
